@@ -1,3 +1,4 @@
+#![allow(dead_code)]
 //! Shared replay machinery: read TLC-generated edges / behaviours, drive an engine (a thin adapter
 //! around the real revm object), compare the projected state with the specification's expectation.
 //!
@@ -152,20 +153,28 @@ pub fn run_edges<E: Engine>(eng: &E, input: &str, output: Option<&str>) {
         let hist = e["hist"].as_array().cloned().unwrap_or_default();
         let op = &e["op"];
         *ops_seen.entry(op.get("op").and_then(|v| v.as_str()).unwrap_or("?").to_string()).or_default() += 1;
+        // history replay: a panic here is an upstream divergence (the edge ending in the panicking
+        // operation is judged on its own), so the edge is tainted, not a root mismatch.
         let r = catch_unwind(AssertUnwindSafe(|| {
             let mut s = eng.init(cfg);
             for h in &hist {
                 eng.apply(&mut s, h);
             }
             let pre = eng.project(&s);
-            let got = eng.apply(&mut s, op);
-            (pre, got)
+            (s, pre)
         }));
-        let (pre_got, got) = match r {
+        let (mut s, pre_got) = match r {
             Ok(x) => x,
+            Err(_) => {
+                n_taint += 1;
+                continue;
+            }
+        };
+        let got = match catch_unwind(AssertUnwindSafe(|| eng.apply(&mut s, op))) {
+            Ok(g) => g,
             Err(p) => {
                 n_panic += 1;
-                (Value::Null, json!({"panic": panic_msg(p)}))
+                json!({"panic": panic_msg(p)})
             }
         };
         let mut exp_pre = e["pre"].clone();
@@ -263,4 +272,41 @@ pub fn gets<'a>(v: &'a Value, k: &str) -> &'a str {
 }
 pub fn getb(v: &Value, k: &str) -> bool {
     v.get(k).and_then(|x| x.as_bool()).unwrap_or_else(|| panic!("field {k} missing/not bool in {v}"))
+}
+
+/// Command line of every engine binary: `<bin> <mode> <input.ndjson> [output.ndjson|-] [key=value ...]`
+pub struct Args {
+    pub mode: String,
+    pub input: String,
+    pub output: Option<String>,
+    pub kv: std::collections::HashMap<String, String>,
+}
+
+impl Args {
+    pub fn parse() -> Args {
+        let args: Vec<String> = std::env::args().collect();
+        if args.len() < 3 {
+            eprintln!("usage: {} <mode> <input> [output] [k=v ...]", args[0]);
+            std::process::exit(2);
+        }
+        let mut a = Args { mode: args[1].clone(), input: args[2].clone(), output: None, kv: Default::default() };
+        for x in &args[3..] {
+            if let Some((k, v)) = x.split_once('=') {
+                a.kv.insert(k.to_string(), v.to_string());
+            } else {
+                a.output = Some(x.clone());
+            }
+        }
+        a
+    }
+    pub fn geti(&self, k: &str, d: i64) -> i64 {
+        self.kv.get(k).map(|v| v.parse::<i64>().unwrap()).unwrap_or(d)
+    }
+    pub fn gets(&self, k: &str, d: &str) -> String {
+        self.kv.get(k).cloned().unwrap_or(d.to_string())
+    }
+    pub fn bad_mode(&self, m: &str) -> ! {
+        eprintln!("unknown mode {m}");
+        std::process::exit(2)
+    }
 }
